@@ -159,7 +159,7 @@ func (gp *genParser) glue() string {
 	var optCode, deferCode string
 	if gp.Has["Statistics"] {
 		optCode += "\tvar st Stats\n\tst.ExprCnt = o.StatsCarry\n\tif o.Stats {\n\t\tctx.Tick = &st.ExprCnt\n\t\topts = append(opts, Statistics(&st, \"no match\"))\n\t}\n"
-		deferCode = "\t\tcnt = st.ExprCnt"
+		deferCode = "\t\tcnt = st.ExprCnt\n\t\tif o.Stats {\n\t\t\tctx.StatsDigest = parsersim.DigestChoiceStats(st.ChoiceAltCnt)\n\t\t}"
 	}
 	if gp.Has["Memoize"] {
 		optCode += "\tif o.Memoize {\n\t\topts = append(opts, Memoize(true))\n\t}\n"
